@@ -20,7 +20,7 @@ static var args_tuple; static var arg_items[9]; static int64_t in_i[8]; static d
 size_t len(var self) { if (self == args_tuple) return NARGS_GIVEN; struct Tuple* t = self; size_t n = 0; while (t->items[n] != Terminal) n++; return n; }
 var get(var self, var key) {
   int64_t i = ((struct Int*)key)->val;
-  if (self == args_tuple) { __CPROVER_assert(i >= 0 && i < NARGS_GIVEN, "harness: get(args, i) within the argument tuple"); return arg_items[i]; }
+  if (self == args_tuple) { __CPROVER_assert(i >= 0 && i < NARGS_GIVEN, "[C14][C12] an argument is fetched only if it exists (too few arguments raise FormatError before anything is read)"); return arg_items[i]; }
   return ((struct Tuple*)self)->items[i];
 }
 /* c_int / c_float are the real ones of src/Num.c (fast path on type_of) */
@@ -90,6 +90,7 @@ int cv_format_to(var self, int pos, const char* fmt, ...) {
     if (fmt[i + 1] == '%') { cv_log('%'); ret++; i += 2; continue; }
     size_t j = i + 1; while (fmt[j] != 0 && !cv_is_conv(fmt[j])) j++;
     __CPROVER_assert(fmt[j] != 0, "[C14] a specification handed to the sink is complete");
+    if (fmt[j] == 0) break;
     int a = cv_spec_seen++;
     __CPROVER_assert(a < NARGS_NEEDED, "[C14] no more specifications reach the sink than the format has");
     int p = cv_spec_piece(a);
